@@ -139,6 +139,25 @@ def run(ctx):
                 ctx.count(f"unknown_key_error={fk.exc_kind(e)}")
             idx = drv.add(dict(params_json(ad.get_params()), op="setparams", set=[[bad, "1.0"]]))
             pending.append(("setparams-refuse", idx, None, case))
+        # --- unknown keys on an estimator that has been used: whatever it stores besides its parameters is not a parameter
+        try:
+            a5 = copy.deepcopy(ad)
+            width = len(d.control) + sum(len(rd) for rd in d.sensors.values())
+            with fk.quiet():
+                a5.transform(np.array([[0.25] * width, [0.5] * width], dtype=float))
+            extras = sorted(set(vars(a5)) - set(a5.get_params()))
+            for bad in extras:
+                case = dict(desc, op="set-unknown-after-use", key=bad)
+                ctx.case(case, True); ctx.count("op=set-unknown-after-use")
+                try:
+                    a5.set_params(**{bad: getattr(a5, bad)})
+                    ctx.fail("unknown-key-accepted:after-use", f"after transform(), set_params accepts {bad!r}, which is not one of the estimator's parameters", case)
+                except ModelConstructionError:
+                    pass
+                except Exception as e:
+                    ctx.count(f"unknown_key_error={fk.exc_kind(e)}")
+        except Exception as e:
+            ctx.fail(f"adapter-raises:{fk.exc_kind(e)}", f"transform on a deep copy raises {e!r}"[:300], dict(desc, op="set-unknown-after-use"))
         # --- flatten / inverse-flatten (private, on deep copies)
         Lc = sorted(s.name for s in d.control)
         a3 = copy.deepcopy(ad)
